@@ -234,6 +234,18 @@ static std::string run_case(const toks_t& t)
         g_track_new = false;
         return o;
       });
+    } else if (variant == "arrv") {
+      // copy_and_verify on a fixed-size ARRAY that lies in sandbox memory, verifier taking it by const reference (the usual
+      // signature): the object handed over is a copy in application memory.  a = element size (1: char, 2: short, 4: float, 8: double)
+      auto go = [&](auto tg) {
+        using T = typename decltype(tg)::type;
+        auto p = g_sb->UNSAFE_accept_pointer(reinterpret_cast<T(*)[4]>(g_win + off));
+        (*p).copy_and_verify([&](const std::array<T, 4>& v) { out = inspect(v.data(), sizeof(T) * 4); return 0; });
+      };
+      if (a == 1) go(tag<char>{});
+      else if (a == 2) go(tag<short>{});
+      else if (a == 4) go(tag<float>{});
+      else go(tag<double>{});
     } else if (variant == "ptrsw") {
       // copy_and_verify on a pointer-to-struct CELL; every read notification of the cell is a point of the schedule too
       auto pp = g_sb->UNSAFE_accept_pointer(reinterpret_cast<SV**>(g_win + off));
